@@ -402,7 +402,18 @@ def advance(out, eng, ex, pr, oid="O4.advance", key=None, replay=None):
         popped = isinstance(q, Obj) and getattr(q, "popped", 0) == 1
         if popped:
             gas_err = z3.BoolVal(n_errs == 1)
-            return z3.And(z3.Not(keep), z3.BoolVal(n_stored == 1), z3.Not(killed_now.e), gas_err == z3.UGT(gas, gas_limit))
+            located_here = z3.BoolVal(True)
+            if n_errs == 1:
+                # the error is reported at the instruction that was being executed (a location inside the code)
+                e0 = errs.fields[0].pushed[0]
+                locs = []
+                if isinstance(e0, Agg):
+                    for fv in e0.fields.values():
+                        fv = ctx.force(fv)
+                        if isinstance(fv, Int) and fv.bits == 32:
+                            locs.append(fv.e)
+                located_here = z3.And([l == ip for l in locs]) if locs else z3.BoolVal(False)
+            return z3.And(z3.Not(keep), z3.BoolVal(n_stored == 1), z3.Not(killed_now.e), gas_err == z3.UGT(gas, gas_limit), located_here)
         front = q.elems[0]
         nip = v.get(front, "VMThread", "thread", "instruction_pointer")
         return z3.And(keep, nip.e == nxt, z3.BoolVal(n_stored == 0), z3.BoolVal(n_errs == 0), killed_now.e == killed)
@@ -411,11 +422,11 @@ def advance(out, eng, ex, pr, oid="O4.advance", key=None, replay=None):
             gas_reason = ev(model, z3.UGT(gas, gas_limit))
             if gas_reason:
                 return native.scenario(out, "error_kind", {"kind": "GasLimitExceeded"},
-                                       judge=lambda d: d.get("permissive_ok", False) or d.get("strict_ok", False))
+                                       judge=lambda d: d.get("permissive_ok", False) or d.get("strict_ok", False) or d.get("gas_location_wrong", False))
             return native.scenario(out, "jump_loop_visits", {"max_iterations": 2})
     verdict(out, pr, oid, paths, post, pre=pre, kinds=("return", "panic"), replay=replay, key=key or "vm-advance-bounds",
             what="advance keeps the thread iff next offset is in range, below the visit limit, gas <= limit and not killed (then ip' = ip+1); "
-                 "otherwise it retires the thread exactly once, clears the kill flag and records GasLimitExceeded iff gas was the reason")
+                 "otherwise it retires the thread exactly once, clears the kill flag and records GasLimitExceeded, located at the current instruction, iff gas was the reason")
 
 
 def main_loop_step(out, eng, pr):
